@@ -4,6 +4,7 @@ from .. import common, codec, coqrun
 
 TRUSTED = [
     'Coq 8.16.1 kernel + vm_compute (no native_compute)',
+    'translator/format_codes.json: the type-code assignment of the format, pinned from File.h / ObjectHeaderBase.h at the commit the properties were written for (C17_factory_is_the_pinned_format)',
     'translator/blf2coq.py (syntactic extraction of createObject switch, ObjectType enum, File.h table, constructors, member initialisers) — validated here by the createObject/fresh-object correspondence',
     'extraction (ExtrOcamlBasic only) + ocaml/driver.ml; harness/codec.cpp + generated reflection (static_assert on every member width)',
 ]
@@ -21,6 +22,17 @@ def run(v, tier, seed, replay=None):
     for nm, code, hdr in meta['format_table']:
         fmt[code] = meta['classes'][hdr]['idx'] if hdr in meta['classes'] else 0
 
+    # the format's own assignment, pinned in /verif (a tree that renumbers the enum and its comments consistently still departs from it)
+    pinned_cls = {}
+    for nm, code, hdr in meta.get('pinned_format', []):
+        if hdr:
+            pinned_cls.setdefault(hdr, set()).add(code)
+        fmt.setdefault(code, 0)
+        if hdr in meta['classes']:
+            if fmt[code] != meta['classes'][hdr]['idx']:
+                v.violation('format-table:%d' % code, 'the tree documents type code %d as %s, the format assigns it to %s' % (code, name_of.get(fmt[code], 'nothing'), hdr),
+                            {'code': code, 'tree': name_of.get(fmt[code]), 'format': hdr, 'pinned_table': 'translator/format_codes.json'})
+            fmt[code] = meta['classes'][hdr]['idx']
     codes = list(range(0, 256)) + [256, 257, 65535, 65536, 2 ** 31 - 1, 2 ** 31, 2 ** 32 - 1, 2 ** 32 - 2]
     codes += [rng.getrandbits(32) for _ in range(200 if tier == 'quick' else 5000)]
     lines = ['C %d' % c for c in codes]
@@ -44,7 +56,11 @@ def run(v, tier, seed, replay=None):
             cls = int(i.split()[2].split('=')[1])
             impl_factory[code] = cls
             want = fmt.get(code, 0)
-            if cls != want:
+            if cls != want and want == 0 and name_of.get(cls) in pinned_cls and code not in pinned_cls[name_of.get(cls)]:
+                v.violation('factory:%d' % code,
+                            'File::createObject(%d) yields %s, which the format assigns to code %s only' % (code, name_of.get(cls, cls), '/'.join(str(x) for x in sorted(pinned_cls[name_of.get(cls)]))),
+                            {'call': 'File::createObject(%d)' % code, 'got_class': name_of.get(cls, cls), 'pinned_table': 'translator/format_codes.json'})
+            elif cls != want:
                 v.violation('factory:%d' % code,
                             'File::createObject(%d) yields %s but the format assigns %s' % (code, name_of.get(cls, cls), name_of.get(want, 'nothing')),
                             {'call': 'File::createObject(%d)' % code, 'got_class': name_of.get(cls, cls), 'expected_class': name_of.get(want)})
@@ -135,7 +151,7 @@ def run(v, tier, seed, replay=None):
         'samples': [lines[1], lines[nC], lines[nC + len(objcls)], plines[0], io[1], io[nC][:160]],
         'correspondence_disagreements': len(disagreements),
         'classes': len(objcls), 'codes': len(codes), 'members_found_indeterminate': undetermined,
-        'theorems': ['C17_factory_total (all integers)', 'C17_factory_unknown_codes', 'C17_ctor', 'C17_written_code', 'C17_determined'],
+        'theorems': ['C17_factory_total (all integers)', 'C17_factory_is_the_pinned_format', 'C17_factory_unknown_codes', 'C17_ctor', 'C17_written_code', 'C17_determined'],
     })
     v.assumptions += ['the model is the translation of the current source (validated by the correspondence above)',
                       'exception lists in coq/Inst/C17.v name known findings; each has a refutation theorem']
